@@ -11,7 +11,7 @@ import replay
 import vlib
 
 OP_POINTS = ("idle", "http.uc", "http.ev", "inst.plan", "pol.start", "inst.install", "pol.rbneeded")
-STIMS = ("fire", "ctl", "clock", "crash", "restart", "end", "drop")
+STIMS = ("fire", "ctl", "clock", "crash", "restart", "end", "drop", "hold")
 
 
 def supported(sc):
@@ -64,6 +64,12 @@ def validate(scs, log_path, wd, name="trace", prop=None, max_runs=None, chunk_li
             skipped[why] = skipped.get(why, 0) + 1
             continue
         kept = [dict(e, atk=str(e.get("at", "")).split("#")[0]) if e.get("k") == "crash" else e for e in recs if keep(e)]
+        # the replies of the run, by request: "_" keeps the record non-empty (an empty JSON object is not a TLA+ record)
+        rep = {"_": "none"}
+        for e in recs:
+            if e.get("k") == "ctl.reply":
+                rep[str(e["req"])] = e["ans"]
+        kept[0] = dict(kept[0], replies=rep)
         if cur and sum(len(r["kept"]) for r in cur) + len(kept) > chunk_lines:
             chunks.append(cur)
             cur = []
@@ -107,20 +113,27 @@ def validate(scs, log_path, wd, name="trace", prop=None, max_runs=None, chunk_li
             lim, l = int(m.group(1)), int(m.group(2))
             if l >= prog.get(lim, (0, ""))[0]:
                 prog[lim] = (l, m.group(3))
+        # several explanations of one run may survive inside TLC (silent steps in either order): the run is accepted
+        # if ONE of them predicts every field
         pred = {}
         for b in replay.behaviours(out):
-            if b["l"] >= pred.get(b["lim"], {"l": -1})["l"]:
-                pred[b["lim"]] = b
+            if b["l"] == b["lim"] and len(pred.setdefault(b["lim"], [])) < 40:
+                pred[b["lim"]].append(b)
         for r in runs:
             l, pc = prog.get(r["last"], (r["first"] - 1, "?"))
-            b = pred.get(r["last"])
-            if l < r["last"] or b is None:
+            cands = pred.get(r["last"])
+            if l < r["last"] or not cands:
                 kept = r["kept"]
                 nxt = kept[l - r["first"] + 1] if l - r["first"] + 1 < len(kept) else None
                 res["rejected"].append({"scenario": r["id"], "matched": l - r["first"] + 1, "of": r["last"] - r["first"] + 1,
                                         "pc": pc, "next_recorded": nxt})
                 continue
-            d = replay.diff(b["obs"], [e for e in r["recorded"] if e.get("k") not in ("tm.nofire", "ctl.drop", "ctl.nohandle")])
+            rec_ = [e for e in r["recorded"] if e.get("k") not in ("tm.nofire", "ctl.drop", "ctl.nohandle")]
+            d = None
+            for b in cands:
+                d = replay.diff(b["obs"], rec_)
+                if not d:
+                    break
             if d:
                 res["drift"].append({"scenario": r["id"], "first_difference": d})
             else:
